@@ -46,12 +46,38 @@ NEEDS2 = {
  "C19": "try_offset with a file or rank offset above 120 in a build with overflow checks",
  "C20": "SAN text whose promotion suffix disagrees with the move (missing on a promotion, present on a quiet move)",
 }
+NEEDS3 = {
+ "C01": "Chess960 castling long with the king on the d-file or short with the king on the f-file (the rook's destination is the king's square)",
+ "C02": "a promotion onto an empty square (no capture)",
+ "C03": "a parsed/built board whose mover's king is in check from the front piece of a slider battery (front piece scanned before the rear slider)",
+ "C04": "any position with two checkers (the king's escape moves)",
+ "C05": "get_pawn_quiets for a White square on rank 8 or a Black square on rank 1 (direct look-up, never issued by the library)",
+ "C06": "text or builder input with diagonally adjacent kings",
+ "C07": "a builder state with exactly one castling right on the wrong side of the king, then a Shredder-FEN round trip",
+ "C08": "a record with seven or more fields (or a trailing space)",
+ "C09": "a builder state whose en-passant square is on the wrong rank for the side to move",
+ "C10": "a castling right on a file other than a/h (Chess960); the side plays a king move or castles",
+ "C11": "two boards differing only in which of two same-side rooks holds the castling right",
+ "C12": "stalemate with a pinned pawn whose pseudo-legal moves all leave the pin ray",
+ "C13": "two double pawn pushes in a row on different files, compared with the same position reached another way",
+ "C14": "a null move with the half-move clock already at 100",
+ "C15": "double check; try_play of a non-king move that captures or blocks the first checker",
+ "C16": "not in check, a pinned pawn that can move along the pin ray; the listener aborts on exactly that batch",
+ "C17": "a hand-built pawn batch whose origin is not on rank 2/7 with destinations on rank 1/8",
+ "C18": "`a -= b` with b not a subset of a",
+ "C19": "Square::from_str on a text of three or more bytes that starts with a valid square",
+ "C20": "a checking, non-mating quiet move played at half-move clock 99 or 100",
+}
+ONLY = [a for a in sys.argv[1:] if not a.startswith("--")]
 for d in sorted(os.listdir(os.path.join(HERE, "seeded"))):
-    m = re.match(r"agent(2?)-(C\d+)$", d)
+    m = re.match(r"agent([23]?)-(C\d+)$", d)
     if not m:
         continue
+    if ONLY and not any(o in d for o in ONLY):
+        continue
     pid = m.group(2)
-    second = bool(m.group(1))
+    rnd = int(m.group(1) or 1)
+    second = rnd >= 2
     sd = os.path.join(HERE, "seeded", d)
     conf = {}
     cf = os.path.join(sd, "CONFIRM.txt") if second else "/tmp/wt/%s/CONFIRM.txt" % pid
@@ -88,8 +114,8 @@ for d in sorted(os.listdir(os.path.join(HERE, "seeded"))):
     meta = {
         "breaks_property": pid,
         "written_by": "independent sub-agent given only the property text and a scratch worktree",
-        "needs_to_manifest": (NEEDS2 if second else NEEDS).get(pid, ""),
-        "round": 2 if second else 1,
+        "needs_to_manifest": {1: NEEDS, 2: NEEDS2, 3: NEEDS3}[rnd].get(pid, ""),
+        "round": rnd,
         "files": ["patch.diff", "demo/", "NOTES.md"],
         "independent_confirmation": conf,
         "confirmation_procedure": "tools/confirm_seed.sh <worktree>: git apply --check on a clean checkout; demo exit code without and with the patch; cargo test --workspace --offline --lib with the patch",
